@@ -429,8 +429,64 @@ def check_other_vector_paths(ctx, dv, hist_call, scatter_tables=()):
             if m and m.group(2).count('(') == m.group(2).count(')') and ',dtype' not in m.group(2).replace(' ', ''):
                 t = m.group(2)
         return t
+    # the empty record set answered without counting: zeros laid out like the histogram - domain.shape, flattened on request
+    handled = set()
+    EMPTY = ('self.records==0', 'len(self.df)==0', 'self.df.shape[0]==0', 'notself.records', 'self.records<1', 'len(self.df.index)==0', 'self.records<=0')
+    def two_way(st):
+        return isinstance(st, ast.If) and len(st.body) == 1 and len(st.orelse) == 1 and isinstance(st.body[0], ast.Return) and isinstance(st.orelse[0], ast.Return) \
+            and len(dv.params) > 1 and U(st.test) == dv.params[1] and st.body[0].value is not None and st.orelse[0].value is not None
+    for g in [n for n in dv.node.body if isinstance(n, ast.If) and U(n.test).replace(' ', '') in EMPTY and n.body and (isinstance(n.body[-1], ast.Return) or two_way(n.body[-1]))]:
+        r = g.body[-1]
+        if two_way(r):
+            handled.add(id(r.body[0]))
+            handled.add(id(r.orelse[0]))
+            r = ast.copy_location(ast.Return(value=ast.IfExp(test=r.test, body=r.body[0].value, orelse=r.orelse[0].value)), r)
+        handled.add(id(r))
+        local = {}
+        for a in g.body[:-1]:
+            if isinstance(a, ast.Assign) and len(a.targets) == 1 and isinstance(a.targets[0], ast.Name):
+                local[a.targets[0].id] = a.value
+            else:
+                raise AnalysisError('Dataset.datavector: the path for an empty record set does more than bind names: `%s`' % U(a)[:60])
+
+        def loc(e):
+            return local.get(e.id, e) if isinstance(e, ast.Name) else e
+        flat_p = dv.params[1] if len(dv.params) > 1 else None
+        arms = []          # (value expression, returned when flatten is ..)
+        v = r.value
+        if isinstance(v, ast.IfExp) and flat_p and U(v.test) == flat_p:
+            arms = [(v.body, True), (v.orelse, False)]
+        else:
+            arms = [(v, None)]
+        for e, when in arms:
+            flattened = False
+            e = loc(e)
+            while isinstance(e, ast.Call) and isinstance(e.func, ast.Attribute) and e.func.attr in ('flatten', 'ravel') and not e.args:
+                flattened = True
+                e = loc(e.func.value)
+            zt = U(e).replace(' ', '')
+            import re as _re
+            m = _re.fullmatch(r'np\.zeros\((.+?)(,dtype=(?:float|np\.float64))?\)', zt)
+            if not m:
+                raise AnalysisError('Dataset.datavector: the empty record set is answered by `%s`, which is in no recognised form' % U(e)[:60])
+            shp = m.group(1)
+            by_shape = shp in ('self.domain.shape', 'tuple(self.domain.shape)')
+            by_size = shp in ('self.domain.size()', '(self.domain.size(),)')
+            if not by_shape and not by_size:
+                raise AnalysisError('Dataset.datavector: zeros of shape `%s` for the empty record set - not recognised' % shp[:60])
+            must_be_table = when is False or (when is None and not flattened)
+            ok = by_shape or (by_size and not must_be_table) if not (when is None and not flattened and flat_p) else by_shape and False
+            if when is None and not flattened and flat_p:
+                ok = False          # ignores the flatten request on this path
+            ctx.ob('histogram', dv, r, ok,
+                   'the empty record set is answered by zeros: of domain.shape when the table is asked for (flatten=False), of that many entries when the vector is; '
+                   '[flatten=%s] the source returns `%s`%s' % (when, U(loc(arms[0][0]) if when is None else e)[:60] + ('.flatten()' if flattened else ''),
+                                                              '' if ok else ' - a vector of domain.size() entries where the table of shape domain.shape is expected'),
+                   construct='empty record set, flatten=%s' % when)
     for r in [n for n in walk_shallow(dv.node) if isinstance(n, ast.Return) and n.value is not None]:
         v = r.value
+        if id(r) in handled:
+            continue
         if (hist_call is not None and any(x is hist_call for x in ast.walk(v))) or any(isinstance(x, ast.Name) and x.id in derived for x in ast.walk(v)):
             continue
         counts = [c for c in ast.walk(ast.parse(resolve(v), mode='eval')) if isinstance(c, ast.Call) and U(c.func) in ('np.bincount', 'numpy.bincount')]
